@@ -772,7 +772,18 @@ impl Scenario for C10Agent {
                 h.push(Ev { tid: 99, inv: 0, ret: u64::MAX, op: Op::Flush, value: 0, payloads: all });
                 v = check_hist_only(&plan.cfg, &h, plan.max_payload.unwrap_or(usize::MAX - 2));
             }
-            if v.is_none() && faults.is_empty() {
+            // ---- datagram transports under faults that only decide the fate of one datagram (dropped,
+            // duplicated, or its send call failed — none of them takes time, and the datagram socket is
+            // re-made without fail before the next send): every payload a flush produced is still handed
+            // to a send call exactly once, so conservation is asserted over the *attempted* datagrams —
+            // a failed send loses that payload, never the ones behind it
+            let per_datagram = ["dgram_drop", "dgram_dup", "send_refused", "send_nobufs", "send_timeout"];
+            let over_attempts = plan.transport != 2 && !faults.is_empty() && faults.iter().all(|f| per_datagram.contains(&f.kind.as_str()));
+            if over_attempts {
+                messages = st.attempts.iter().map(|d| (d.time, d.step, d.data.clone())).collect();
+                rep.count("conservation_over_attempts_runs", 1);
+            }
+            if v.is_none() && (faults.is_empty() || over_attempts) {
                 let full = plan.max_payload.map_or(true, |m| m >= 100);
                 // flush k happens at virtual time k * interval; its sends fall into [k*I, (k+1)*I)
                 let last_cycle = messages.iter().map(|m| m.0 / interval).max().unwrap_or(0).max(plan.cycles.len() as u64 + 3);
@@ -839,7 +850,7 @@ impl Scenario for C10Agent {
         vec!["thread scheduler (dsim)", "std::thread::sleep / Instant (virtual time)", "UdpSocket / UnixDatagram / UnixStream (simulated agent socket with seeded drop, duplicate, ECONNREFUSED, ENOBUFS, timeout, short write, EINTR, EPIPE, reset)", "SystemTime for the timestamp value (real; only its presence is compared)"]
     }
     fn assumptions(&self) -> Vec<&'static str> {
-        vec!["application updates happen in the middle of flush intervals in this scenario (update/flush races are the `flush` scenario's job); conservation is asserted in fault-free runs, framing and well-formedness in all runs"]
+        vec!["application updates happen in the middle of flush intervals in this scenario (update/flush races are the `flush` scenario's job); conservation is asserted in fault-free runs and, over the attempted datagrams, in datagram-transport runs whose only faults decide the fate of single datagrams; framing and well-formedness in all runs"]
     }
 }
 
